@@ -208,15 +208,17 @@ def piiScopes (openidRequested : Bool) (granted : List Nat) : List Nat :=
   (if openidRequested && granted.contains scopeEmail then [scopeEmail, scopeEmailVerified] else [])
   ++ (if granted.contains scopeSshPublickeys then [scopeSshPublickeys] else [])
 
+/-- `consent_previously_granted` (lines 2539–2546). -/
+def previouslyGranted (c : Client) (i : Ident) (granted : List Nat) : Bool :=
+  match i.consentScopes c.uuid with
+  | some cs => setEq granted cs
+  | none => false
+
 /-- Lines 2537–2696. -/
 def finishStage (c : Client) (i : Ident) (req : Request) (mode : SupportedResponseMode)
     (loopbackMatched : Bool) (challenge : Option Nat) (reqScopes granted : List Nat) (ct : Nat) : Outcome :=
   let openidRequested := reqScopes.contains scopeOpenid
-  let previouslyGranted :=
-    match i.consentScopes c.uuid with
-    | some cs => setEq granted cs
-    | none => false
-  if !(consentRequired previouslyGranted c.isBasic loopbackMatched c.enableConsentPrompt) then
+  if !(consentRequired (previouslyGranted c i granted) c.isBasic loopbackMatched c.enableConsentPrompt) then
     .permitted
       { accountUuid := i.uuid, sessionId := i.sessionId, expiry := asSecs ct + codeExpirySecs,
         codeChallenge := challenge, redirectUri := req.redirectUri.atom, scopes := granted,
